@@ -107,7 +107,7 @@ var SharedKinds = []string{"self", "map", "filter", "reshard1", "reshard2", "res
 // consumers get the tasks they asked for (shard count, partitioner, direct or
 // shuffled dependency).
 func EnumShared(nshard, nrows int, materialize bool, a, b int) *Spec {
-	spec, _ := enumShared(nshard, nrows, materialize, a, b, false)
+	spec, _ := enumShared(nshard, nrows, materialize, a, b, false, false)
 	return spec
 }
 
@@ -116,10 +116,17 @@ func EnumShared(nshard, nrows int, materialize bool, a, b int) *Spec {
 // the program that computes r (Map(ReaderFunc)). Every consumer that
 // redistributes r gets re-shuffle tasks of its own.
 func EnumSharedArg(nshard, nrows int, a, b int) (main, arg *Spec) {
-	return enumShared(nshard, nrows, false, a, b, true)
+	return enumShared(nshard, nrows, false, a, b, true, false)
 }
 
-func enumShared(nshard, nrows int, materialize bool, a, b int, viaArg bool) (*Spec, *Spec) {
+// EnumSharedArgObserved is EnumSharedArg with a WriterFunc observer behind each
+// of the two consumers, Cogroup(W(A(r)), W(B(r))): the observers see where A
+// and B have put every row.
+func EnumSharedArgObserved(nshard, nrows int, a, b int) (main, arg *Spec) {
+	return enumShared(nshard, nrows, false, a, b, true, true)
+}
+
+func enumShared(nshard, nrows int, materialize bool, a, b int, viaArg, observe bool) (*Spec, *Spec) {
 	spec := &Spec{}
 	src := Node{Op: "readerfunc", Cols: []Col{TInt, TInt}, NShard: nshard, ShardRows: make([][][]int, nshard), Script: []vgen.Chunk{{N: 64}}}
 	for i := 0; i < nrows; i++ {
@@ -182,7 +189,15 @@ func enumShared(nshard, nrows int, materialize bool, a, b int, viaArg bool) (*Sp
 		return len(spec.Nodes) - 1
 	}
 	ia := consumer(a)
+	if observe {
+		spec.Nodes = append(spec.Nodes, Node{Op: "writerfunc", In: []int{ia}})
+		ia = len(spec.Nodes) - 1
+	}
 	ib := consumer(b)
+	if observe {
+		spec.Nodes = append(spec.Nodes, Node{Op: "writerfunc", In: []int{ib}})
+		ib = len(spec.Nodes) - 1
+	}
 	spec.Nodes = append(spec.Nodes, Node{Op: "cogroup", In: []int{ia, ib}})
 	if err := Annotate(spec); err != nil {
 		panic(err)
